@@ -185,6 +185,11 @@ Deep ==
     [k |-> "seq", tags |-> <<>>, comps |-> << Comp("id", Sc("bool", <<>>), "req"),
           CompD("routes", [k |-> "seqof", tags |-> <<>>, of |-> Route],
                 [es |-> << [cs |-> << [p |-> TRUE, v |-> I(1)], [p |-> TRUE, v |-> [b |-> TRUE]] >>] >>]) >>],
+    \* tag stacks of depth 2 (the quick tier otherwise stops at depth 1): explicit over explicit, explicit over implicit,
+    \* implicit over explicit, also around ANY
+    Sc("any", <<CtxE(1), CtxE(2)>>), Sc("any", <<[m |-> "E", c |-> 1, n |-> B(128)], [m |-> "E", c |-> 1, n |-> B(128)]>>),
+    Sc("int", <<CtxE(1), CtxE(2)>>), Sc("octs", <<Ctx(1), CtxE(2)>>), Sc("int", <<CtxE(1), Ctx(2)>>),
+    Sc("any", <<Ctx(1), CtxE(2)>>), Sc("bool", <<CtxE(31), CtxE(31)>>),
     \* repeated explicitly tagged strings: with a chunk size some members are segmented (constructed) and some are not
     [k |-> "seqof", tags |-> <<>>, of |-> Sc("octs", <<CtxE(5)>>)],
     [k |-> "seqof", tags |-> <<>>, of |-> Sc("utf8", <<CtxE(40)>>)],
